@@ -535,3 +535,135 @@ func evalC19Prim(c *Ctx, cs EnumCase) EnumResult {
 func c19PrimPlan() *EnumPlan {
 	return &EnumPlan{Name: "primitive-histories", Cases: c19PrimCases, Eval: evalC19Prim}
 }
+
+// Event.Wait with real waiting: 2..3 goroutines wait on one event with timeouts from {1, 3, 8} s, the event
+// is set at a chosen moment (or never); every combination, both event modes. A Wait may return success only
+// once the event has been set, and must report a timeout when it was not set before its own deadline.
+type c19WaitArg struct {
+	Mode     bool  `json:"m"` // default-set mode
+	Timeouts []int `json:"t"`
+	SetAt    int   `json:"s"` // 100 ms units; 0 = never
+}
+
+func c19WaitCases(quick bool) []EnumCase {
+	var out []EnumCase
+	tos := []int{1, 3, 8}
+	sets := []int{0, 20, 55}
+	if !quick {
+		tos = []int{1, 2, 3, 5, 8}
+		sets = []int{0, 5, 15, 20, 45, 55, 100}
+	}
+	var combos [][]int
+	for _, a := range tos {
+		for _, b := range tos {
+			combos = append(combos, []int{a, b})
+			for _, c := range tos {
+				combos = append(combos, []int{a, b, c})
+			}
+		}
+	}
+	for _, mode := range []bool{true, false} {
+		for _, t := range combos {
+			for _, s := range sets {
+				out = append(out, mkCase(fmt.Sprintf("event-wait/defaultset=%v/timeouts%v/set-at-%d00ms", mode, t, s), c19WaitArg{mode, t, s}))
+			}
+		}
+	}
+	return out
+}
+
+func evalC19Wait(c *Ctx, cs EnumCase) EnumResult {
+	var a c19WaitArg
+	if err := json.Unmarshal(cs.Arg, &a); err != nil {
+		return EnumResult{Err: err.Error()}
+	}
+	res := EnumResult{Nontrivial: true}
+	var engErr string
+	type ret struct {
+		at  int64
+		ok  bool
+		err string
+	}
+	rets := make([]*ret, len(a.Timeouts))
+	var setAt int64 = -1
+	var t0 int64
+	rt := vrt.Run(vrt.Options{MaxPoints: 100_000_000}, func() {
+		node := hapi.Factories["n0"](hapi.Config{FastKeys: 4, Concurrent: 1})
+		if err := node.Start(); err != nil {
+			engErr = err.Error()
+			return
+		}
+		vrt.AdvanceTo(1300 * ms)
+		var cs []*cl.Client
+		for i := 0; i <= len(a.Timeouts); i++ {
+			cc := cl.NewClient("127.0.0.1", 5658)
+			if err := cc.Open(); err != nil {
+				engErr = "client open: " + err.Error()
+				return
+			}
+			cs = append(cs, cc)
+		}
+		vrt.Quiesce()
+		key := ckey(41)
+		setter := cs[len(a.Timeouts)].Event(key, 0, 60, a.Mode)
+		_, _ = setter.Clear() // on a fresh database a default-clear event is clear already (the server answers "unknown db")
+		if set, err := setter.IsSet(); err != nil || set {
+			engErr = fmt.Sprintf("the event is not clear after Clear(): IsSet=%v err=%v", set, err)
+			return
+		}
+		t0 = vrt.Elapsed()
+		for i, to := range a.Timeouts {
+			i, to := i, to
+			ev := cs[i].Event(key, 0, 60, a.Mode)
+			vrt.GoN(fmt.Sprintf("waiter%d", i), func() {
+				_, err := ev.Wait(uint32(to))
+				r := &ret{at: vrt.Elapsed(), ok: err == nil}
+				if err != nil {
+					r.err = err.Error()
+				}
+				rets[i] = r
+			})
+			vrt.Quiesce()
+		}
+		if a.SetAt > 0 {
+			vrt.AdvanceTo(t0 + int64(a.SetAt)*100*ms)
+			if _, err := setter.Set(); err != nil {
+				engErr = "Set: " + err.Error()
+				return
+			}
+			setAt = vrt.Elapsed()
+		}
+		vrt.AdvanceTo(t0 + 12*sec)
+	})
+	if engErr != "" {
+		return EnumResult{Err: engErr}
+	}
+	if rt.Crash != nil {
+		res.Viol = append(res.Viol, explore.Violation{Sig: "C19:crash", Msg: rt.Crash.Value})
+		return res
+	}
+	var obs []string
+	for i, r := range rets {
+		to := int64(a.Timeouts[i]) * sec
+		what := fmt.Sprintf("event (default-set mode %v) cleared; waiters with timeouts %v s; Set at %s: waiter %d", a.Mode, a.Timeouts, map[bool]string{true: fmt.Sprintf("+%d ms", (setAt-t0)/ms), false: "never"}[setAt >= 0], i)
+		if r == nil {
+			res.Viol = append(res.Viol, explore.Violation{Sig: "C19:event-wait-never-returns", Msg: what + " has not returned 12 s after it started"})
+			continue
+		}
+		obs = append(obs, fmt.Sprintf("w%d:%v@%dms", i, r.ok, (r.at-t0)/ms))
+		switch {
+		case r.ok && (setAt < 0 || r.at < setAt):
+			res.Viol = append(res.Viol, explore.Violation{Sig: "C19:event-wait-returned-before-set", Msg: fmt.Sprintf("%s returned success at +%d ms although the event had not been set", what, (r.at-t0)/ms)})
+		case !r.ok && setAt >= 0 && setAt-t0 < to-500*ms:
+			res.Viol = append(res.Viol, explore.Violation{Sig: "C19:event-wait-missed-set", Msg: fmt.Sprintf("%s returned %q at +%d ms although the event was set well before its deadline", what, r.err, (r.at-t0)/ms)})
+		case !r.ok && r.at-t0 < to:
+			res.Viol = append(res.Viol, explore.Violation{Sig: "C19:event-wait-gave-up-early", Msg: fmt.Sprintf("%s returned %q at +%d ms, before its timeout", what, r.err, (r.at-t0)/ms)})
+		}
+	}
+	res.Obs = strings.Join(obs, " ")
+	return res
+}
+
+func c19WaitPlan() *EnumPlan {
+	return &EnumPlan{Name: "event-wait-timeouts", Cases: c19WaitCases, Eval: evalC19Wait}
+}
